@@ -73,6 +73,9 @@ func buildOverlay(workDir string, withTests bool) (*overlaySet, error) {
 			}
 		}
 		for _, f := range files {
+			if isDropped(filepath.Base(f)) {
+				continue // does not compile against this tree (found by load()): keep it out of the native build too
+			}
 			b, err := os.ReadFile(f)
 			if err != nil {
 				return nil, err
@@ -161,6 +164,15 @@ func load() (*loaded, error) {
 		}
 	}
 	return &loaded{World: w, Prog: prog, Pkgs: pkgs, LoadS: time.Since(t0).Seconds()}, nil
+}
+
+func isDropped(base string) bool {
+	for _, d := range droppedHarness {
+		if d == base {
+			return true
+		}
+	}
+	return false
 }
 
 // droppedHarness lists harness files excluded because they do not compile against the current tree.
